@@ -84,6 +84,12 @@ def harnesses(tier):
 
     for w in all_walks(SIX, 2):
         add(w, 120, twin=walk_str(w) in (">s0>s1", "<a1<a0"))
+    # the same walks over haplotype segments with the S lines of the graph in reverse order (file order != SO order)
+    for w in list(all_walks(["a0", "a1", "s1"], 2)) + [parse_walk(x) for x in (">s0>a0>a1>s2", "<a1<a0<s0", ">a1>a0", ">s0>s1>s2", "<c1<c0")]:
+        ws = walk_str(w)
+        if ("rev:" + ws) not in seen and any(n in ("a0", "a1", "c0", "c1", "s2") for _, n in w):
+            seen.add("rev:" + ws)
+            hs.append({"id": "chain-revorder/" + ws, "params": {"kind": "chain", "walk": ws, "revorder": True}, "timeout": 200})
     for ws in CURATED:
         add(parse_walk(ws), 300)
     if tier == "thorough":
@@ -124,6 +130,7 @@ def build(params, which="C01"):
         def case(*a):
             L = a[:11]
             ps, pe, k = a[11:14]
+            F.GRAPH_ORDER[0] = list(reversed(F.ORDER)) if params.get("revorder") else None
             return F.convert_chain(walk, L, ps, pe, k, cols, which)
 
         return Harness(args, pre, case, fuel=50)
@@ -236,7 +243,7 @@ def replay(params, model, wd, which="C01"):
                 s0, e0 = segs[ids[0]][1], segs[ids[-1]][1] + segs[ids[-1]][2]
                 path += "%s%s:%d-%d" % (o, c, s0, e0)
                 total += e0 - s0
-    gfa, seqs = F.write_rgfa(wd, segs, walks)
+    gfa, seqs = F.write_rgfa(wd, segs, walks, order=(list(reversed(F.ORDER)) if params.get("revorder") else None))
     tags = "\t".join(k_ + v for k_, v in F.TAGS)
     line = "r\t100\t0\t100\t%s\t%s\t%d\t%d\t%d\t5\t20\t60\t%s" % (strand, path, total, ps, pe, tags)
     want = F.spell(line.split("\t"), segs, seqs)
